@@ -301,7 +301,7 @@ func (d *syslogRFC5424Decoder) parseStructuredData(data []byte) (SyslogSD, int, 
 			}
 
 			switch {
-			case b == ']':
+			case b == ']' && !insideParamValue:
 				if idx == 0 || data[idx-1] != '"' {
 					return nil, 0, false
 				}
